@@ -1,7 +1,7 @@
 //@ tu: libxcm/tp/tls/xcm_tp_btls.c
 //@ enforce: try_finish_tls_handshake
 //@ props: C09 C06
-//@ expect: postcondition>=10 canary=9
+//@ expect: postcondition>=13 canary=9
 #include "_unit.h"
 void harness(void)
 {
